@@ -48,6 +48,7 @@ ASSUMPTIONS = [
     'stray files are placed outside the level directories (what lies inside a level directory counts as that cache\'s tile data)',
 ]
 BACKENDS = ([({'type': 'file', 'directory_layout': l}, 2) for l in ('tc', 'mp', 'tms', 'reverse_tms', 'quadkey', 'arcgis')] +
+            [({'type': 'file', 'directory_layout': 'tc', 'link': 'symlink'}, 2), ({'type': 'file', 'directory_layout': 'tms', 'link': 'symlink'}, 1)] +
             [({'type': 'compact', 'version': 1}, 2), ({'type': 'compact', 'version': 2}, 2), ({'type': 'sqlite'}, 3),
              ({'type': 'mbtiles'}, 1), ({'type': 'geopackage'}, 1), ({'type': 'geopackage', 'levels': True}, 1)])
 _seq = [0]
@@ -79,6 +80,9 @@ def gen(t, tier):
             continue
         seen.append(c)
         sc['tiles'].append([c, t.pick([0.0, 0.2, 0.7, 1.0, 1.0, 5, 3600, 86400])])
+        if b.get('link') and t.chance(0.5):
+            # a single-colour tile: stored as a link to a file shared by all tiles of that colour
+            sc['tiles'][-1].append(t.pick([[255, 0, 0], [0, 0, 255]]))
     nlev = {'global2': 4, 'sqrt2': 6}.get(gk) or len(sc['grid']['res'])
     levels = t.weighted([('all', 1), ('list', 3), ('range', 2)])
     if levels == 'list':
@@ -122,7 +126,8 @@ def shrink(sc):
             c = copy.deepcopy(sc)
             c[key] = simple
             yield c
-    for i, (coord, dt) in enumerate(sc['tiles']):
+    for i, item in enumerate(sc['tiles']):
+        dt = item[1]
         if dt not in (0.0, 1.0):
             c = copy.deepcopy(sc)
             c['tiles'][i][1] = 1.0
@@ -165,7 +170,7 @@ def run(sc, tape):
 
     b = sc['backend']
     name = b['type'] + ('-' + b['directory_layout'] if 'directory_layout' in b else '') + \
-        ('-v%d' % b['version'] if 'version' in b else '') + ('-levels' if b.get('levels') else '') + \
+        ('-v%d' % b['version'] if 'version' in b else '') + ('-levels' if b.get('levels') else '') + ('-' + b['link'] if b.get('link') else '') + \
         ('-meta' if sc['meta_size'] != [1, 1] else '') + ('-' + sc['gk'] if sc['gk'] != 'global2' else '')
     w = World(tape, policy=('sticky', 0.3), step_cap=600000)
     sched = w.sched
@@ -188,6 +193,7 @@ def run(sc, tape):
         realdir = '/dev/shm/verif-c12-%d-%d' % (_REAL['os.getpid'](), _seq[0])
         os.makedirs(realdir)
     cache_conf = dict(b)
+    link = cache_conf.pop('link', None)
     if b['type'] == 'compact':
         cache_conf['version'] = b['version']
     if b['type'] == 'sqlite':
@@ -201,7 +207,7 @@ def run(sc, tape):
         else:
             cache_conf['filename'] = realdir + '/c.gpkg'
         cache_conf['table_name'] = 'tiles'
-    conf = F.base_conf(cache_conf, meta_size=sc['meta_size'])
+    conf = F.base_conf(cache_conf, meta_size=sc['meta_size'], link=link or False)
     conf['grids']['g'] = dict(sc['grid'])
     # a second cache next to the first one: a foreign object for the cleanup of c1
     conf['caches']['c2'] = {'grids': ['g'], 'sources': ['src'], 'format': 'image/png',
@@ -229,15 +235,17 @@ def run(sc, tape):
                    gbb[0] + fx1 * (gbb[2] - gbb[0]), gbb[1] + fy1 * (gbb[3] - gbb[1])]
         result['cov'] = cov
         tiles = []
-        for (fx, fy, z), dt in sc['tiles']:
+        for item in sc['tiles']:
+            (fx, fy, z), dt = item[0], item[1]
             z = min(z, nlev - 1)
             nx, ny = grid.grid_sizes[z]
             c = (fx * nx // 1000, fy * ny // 1000, z)
             if c not in [t_[0] for t_ in tiles]:
-                tiles.append((c, dt))
-        for i, (coord, dt) in enumerate(tiles):
+                tiles.append((c, dt, item[2] if len(item) > 2 else None))
+        for i, (coord, dt, colour) in enumerate(tiles):
             clock.now += dt
-            t = C.make_tile(coord, C.payload({'tok': 5000 + i, 'size': 0}))
+            t = C.make_tile(coord, C.payload({'color': colour} if colour else {'tok': 5000 + i, 'size': 0},
+                                             w=U.TS, h=U.TS))
             cache.store_tile(t)
             times_of[tuple(coord)] = clock.now
         # foreign objects
@@ -258,7 +266,8 @@ def run(sc, tape):
         recorded = {}
         for coord in times_of:
             if b['type'] == 'file':
-                recorded[coord] = w.fs.stat(cache.tile_location(Tile(coord)), _yield=False).st_mtime
+                # the tile's own write time: the link itself for linked single-colour tiles
+                recorded[coord] = w.fs.stat(cache.tile_location(Tile(coord)), follow_symlinks=False, _yield=False).st_mtime
             else:
                 recorded[coord] = times_of[coord]
         # threshold
